@@ -161,7 +161,7 @@ package atree
 //@   ensures[C17] err == nil ==> r != nil && fresh(r) && r.Storage == a.Storage && r.root != a.root && is(r.root, *ArrayDataSlab) && fresh(r.root) &&
 //@        hdrOf(r.root).slabID.address == address &&
 //@        origin(as(r.root, *ArrayDataSlab).elements) != origin(as(a.root, *ArrayDataSlab).elements)
-//@   ensures[C03 C17] err == nil ==> sto[hdrOf(r.root).slabID] == r.root && has(stored, r.root)
+//@   ensures[C03 C08 C17] err == nil ==> sto[hdrOf(r.root).slabID] == r.root && has(stored, r.root)
 //@   ensures[C17] err != nil ==> r == nil
 //@   modifies ghost.sto, ghost.issued, ghost.stored, ghost.touched, alloc
 
@@ -211,7 +211,7 @@ package atree
 //@   ensures[C17] err == nil ==> r != nil && fresh(r) && r.Storage == m.Storage && r.root != m.root && is(r.root, *MapDataSlab) && fresh(r.root) && r.digesterBuilder == digestBuilder &&
 //@        mhdrOf(r.root).slabID.address == address && as(r.root, *MapDataSlab).elements != as(m.root, *MapDataSlab).elements &&
 //@        as(r.root, *MapDataSlab).extraData.Seed == as(m.root, *MapDataSlab).extraData.Seed
-//@   ensures[C03 C17] err == nil ==> sto[mhdrOf(r.root).slabID] == r.root && has(stored, r.root)
+//@   ensures[C03 C08 C17] err == nil ==> sto[mhdrOf(r.root).slabID] == r.root && has(stored, r.root)
 //@   ensures[C17] err != nil ==> r == nil
 //@   modifies basicDigesterBuilder.k0, basicDigesterBuilder.k1, ghost.sto, ghost.issued, ghost.stored, ghost.touched, alloc
 
@@ -223,7 +223,7 @@ package atree
 //@        wfADS(as(a.root, *ArrayDataSlab)) && len(as(a.root, *ArrayDataSlab).elements) == 0 && as(a.root, *ArrayDataSlab).header.size == 5 &&
 //@        !as(a.root, *ArrayDataSlab).inlined && as(a.root, *ArrayDataSlab).extraData != nil && as(a.root, *ArrayDataSlab).next == SlabIDUndefined &&
 //@        as(a.root, *ArrayDataSlab).header.slabID.address == address
-//@   ensures[C03] err == nil ==> sto[as(a.root, *ArrayDataSlab).header.slabID] == a.root && has(stored, a.root)
+//@   ensures[C03 C08] err == nil ==> sto[as(a.root, *ArrayDataSlab).header.slabID] == a.root && has(stored, a.root)
 //@   ensures err != nil ==> a == nil && categorised(err)
 //@   modifies ghost.sto, ghost.issued, ghost.stored, ghost.touched, alloc
 
@@ -235,14 +235,16 @@ package atree
 //@   requires[C05] 5 + elementSize <= maxThreshold
 //@   ensures[C06 C17] err == nil ==> a != nil && is(a.root, *ArrayDataSlab) && wfADS(as(a.root, *ArrayDataSlab)) && as(a.root, *ArrayDataSlab).elements == elements &&
 //@        as(a.root, *ArrayDataSlab).header.size == 5 + elementSize && as(a.root, *ArrayDataSlab).header.size <= maxThreshold
-//@   ensures[C03] err == nil ==> sto[as(a.root, *ArrayDataSlab).header.slabID] == a.root && has(stored, a.root)
+//@   ensures[C03 C08] err == nil ==> sto[as(a.root, *ArrayDataSlab).header.slabID] == a.root && has(stored, a.root)
 //@   ensures err != nil ==> a == nil
 //@   modifies ghost.sto, ghost.issued, ghost.stored, ghost.touched, alloc
 
-//@ func ByteSliceToByteArray(storage, address, typeInfo, data, estimatedByteStorableSize) (a, err)  serves C05 C17
+//@ func ByteSliceToByteArray(storage, address, typeInfo, data, estimatedByteStorableSize) (a, err)  serves C05 C06 C17
 //@   requires storage != nil
 //@   modifies heap, ghost.sto, ghost.issued, ghost.stored, ghost.touched, ghost.notified, ghost.updFail, alloc
 //@   loop 1: invariant 0 <= i && i <= len(data) && len(elements) == len(data) && elementSize == sum(bs, elements, i) && (forall k :: 0 <= k && k < i ==> elements[k] != nil)
+//@   before[C17] newArrayWithElements: arg_elements == elements && len(elements) == len(data) && arg_elementSize == elementSize &&
+//@        arg_storage == storage && arg_address == address && arg_typeInfo == typeInfo
 
 //@ # ---------------------------------------------------------------- array.go: NewArrayFromBatchData (C05, C06, C17)
 //@ # The element stream is packed into a chain of leaves; each leaf is closed when it has reached the target size.
@@ -309,6 +311,8 @@ package atree
 //@        (forall k :: 0 <= k && k < len(r) - 1 ==> len(as(r[k], *ArrayMetaDataSlab).childrenHeaders) == maxHdrs())
 //@   ensures err == nil ==> (forall j, k :: 0 <= j && j < k && k < len(r) ==> r[j] != r[k])
 //@   ensures err != nil ==> len(r) == 0
+//@   ensures[C09 C17] err == nil ==> (forall j, k :: 0 <= j && j < k && k < len(r) ==> as(r[j], *ArrayMetaDataSlab).header.slabID != as(r[k], *ArrayMetaDataSlab).header.slabID) &&
+//@        (forall k :: 0 <= k && k < len(r) ==> !has(old(issued), as(r[k], *ArrayMetaDataSlab).header.slabID) && has(issued, as(r[k], *ArrayMetaDataSlab).header.slabID))
 //@   modifies ghost.touched, ghost.issued, alloc
 //@   loop 1: invariant 0 <= nextLevelSlabsIndex && len(slabs) == len(old(slabs)) && maxNumberOfHeadersInMetaSlab == maxHdrs()
 //@   loop 1: invariant metaSlab != nil && !allocatedBefore(metaSlab) && metaSlab.extraData == nil && len(metaSlab.childrenHeaders) == len(metaSlab.childrenCountSum) &&
@@ -323,6 +327,11 @@ package atree
 //@   loop 1: invariant (forall k :: 0 <= k && k < nextLevelSlabsIndex ==> wfMeta0(as(slabs[k], *ArrayMetaDataSlab)) && as(slabs[k], *ArrayMetaDataSlab).extraData == nil &&
 //@        len(as(slabs[k], *ArrayMetaDataSlab).childrenHeaders) == maxHdrs() && as(slabs[k], *ArrayMetaDataSlab).header.size <= maxThreshold)
 //@   loop 1: invariant (forall j, k :: 0 <= j && j < k && k < nextLevelSlabsIndex ==> slabs[j] != slabs[k])
+//@   # every index slab of the new level gets its own, newly issued identifier (C09: no identifier is used twice)
+//@   loop 1: invariant metaSlab.header.slabID == id && has(issued, id) && !has(old(issued), id) && (forall x SlabID :: has(old(issued), x) ==> has(issued, x))
+//@   loop 1: invariant (forall k :: 0 <= k && k < nextLevelSlabsIndex ==> as(slabs[k], *ArrayMetaDataSlab).header.slabID != id &&
+//@        has(issued, as(slabs[k], *ArrayMetaDataSlab).header.slabID) && !has(old(issued), as(slabs[k], *ArrayMetaDataSlab).header.slabID))
+//@   loop 1: invariant (forall j, k :: 0 <= j && j < k && k < nextLevelSlabsIndex ==> as(slabs[j], *ArrayMetaDataSlab).header.slabID != as(slabs[k], *ArrayMetaDataSlab).header.slabID)
 
 //@ # ---------------------------------------------------------------- map.go: bulk build, one level up (C02 C05 C06 C17)
 //@ pred maxMapHdrs() = (maxThreshold - 12) / 18
@@ -338,6 +347,8 @@ package atree
 //@        (forall k :: 0 <= k && k < len(r) - 1 ==> len(as(r[k], *MapMetaDataSlab).childrenHeaders) == maxMapHdrs())
 //@   ensures err == nil ==> (forall j, k :: 0 <= j && j < k && k < len(r) ==> r[j] != r[k])
 //@   ensures err != nil ==> len(r) == 0
+//@   ensures[C09 C17] err == nil ==> (forall j, k :: 0 <= j && j < k && k < len(r) ==> as(r[j], *MapMetaDataSlab).header.slabID != as(r[k], *MapMetaDataSlab).header.slabID) &&
+//@        (forall k :: 0 <= k && k < len(r) ==> !has(old(issued), as(r[k], *MapMetaDataSlab).header.slabID) && has(issued, as(r[k], *MapMetaDataSlab).header.slabID))
 //@   modifies ghost.touched, ghost.issued, alloc
 //@   loop 1: invariant 0 <= nextLevelSlabsIndex && len(slabs) == len(old(slabs)) && maxNumberOfHeadersInMetaSlab == maxMapHdrs()
 //@   loop 1: invariant metaSlab != nil && !allocatedBefore(metaSlab) && metaSlab.extraData == nil &&
@@ -351,6 +362,11 @@ package atree
 //@   loop 1: invariant (forall k :: 0 <= k && k < nextLevelSlabsIndex ==> wfMMB(as(slabs[k], *MapMetaDataSlab)) && as(slabs[k], *MapMetaDataSlab).extraData == nil &&
 //@        len(as(slabs[k], *MapMetaDataSlab).childrenHeaders) == maxMapHdrs() && as(slabs[k], *MapMetaDataSlab).header.size <= maxThreshold)
 //@   loop 1: invariant (forall j, k :: 0 <= j && j < k && k < nextLevelSlabsIndex ==> slabs[j] != slabs[k])
+//@   # every index slab of the new level gets its own, newly issued identifier (C09: no identifier is used twice)
+//@   loop 1: invariant metaSlab.header.slabID == id && has(issued, id) && !has(old(issued), id) && (forall x SlabID :: has(old(issued), x) ==> has(issued, x))
+//@   loop 1: invariant (forall k :: 0 <= k && k < nextLevelSlabsIndex ==> as(slabs[k], *MapMetaDataSlab).header.slabID != id &&
+//@        has(issued, as(slabs[k], *MapMetaDataSlab).header.slabID) && !has(old(issued), as(slabs[k], *MapMetaDataSlab).header.slabID))
+//@   loop 1: invariant (forall j, k :: 0 <= j && j < k && k < nextLevelSlabsIndex ==> as(slabs[j], *MapMetaDataSlab).header.slabID != as(slabs[k], *MapMetaDataSlab).header.slabID)
 
 //@ # ---- bulk build of a map from a digest-ordered element stream (C02 C05 C06 C17)
 //@ functype MapElementProvider() (k, v, err)
@@ -367,4 +383,16 @@ package atree
 //@   ensures[C17] seed == 0 ==> err != nil && isFatal(err) && m == nil
 //@   ensures err == nil ==> m != nil && m.Storage == storage && m.root != nil && m.digesterBuilder == digesterBuilder
 //@   ensures err != nil ==> m == nil
+//@   # hand-offs (C17): the digester is seeded with the caller's seed, every pair from the provider is digested at level 0 and stored
+//@   # unchanged (a colliding pair goes into the last element of the leaf under construction), and the root that is written back
+//@   # carries the caller's type, the caller's seed and the number of accepted pairs
+//@   before[C17] DigesterBuilder.SetSeed: arg_recv == digesterBuilder && arg_k0 == seed && arg_k1 == typicalRandomConstant
+//@   before[C17] DigesterBuilder.Digest: arg_recv == digesterBuilder && arg_hip == hip && arg_value == key
+//@   before[C17] Digester.Digest: arg_recv == digester && arg_level == 0
+//@   before[C17] newSingleElement: arg_storage == storage && arg_address == address && arg_key == key && arg_value == value
+//@   before[C17] element.Set: arg_recv == elements.elems[len(elements.elems) - 1] && arg_storage == storage && arg_address == address && arg_b == digesterBuilder &&
+//@        arg_digester == digester && arg_level == 0 && arg_hkey == hkey && hkey == prevHkey && arg_comparator == comparator && arg_hip == hip && arg_key == key && arg_value == value
+//@   exit[C17] err == nil ==> extraData != nil && extraData.TypeInfo == typeInfo && extraData.Count == count && extraData.Seed == seed &&
+//@        ite(is(root, *MapDataSlab), as(root, *MapDataSlab).extraData, as(root, *MapMetaDataSlab).extraData) == extraData && m.root == root
+//@   exit[C03 C08 C17] err == nil ==> has(stored, root) && sto[mhdrOf(root).slabID] == root
 //@   modifies heap, ghost.sto, ghost.issued, ghost.stored, ghost.touched, ghost.refusals, alloc
